@@ -49,6 +49,7 @@ type bsess struct {
 	nConnect, nSuback int
 	nextID    uint16
 	nAns      int
+	nRet int
 }
 
 func newBroker(s *Sim) *broker {
@@ -344,8 +345,37 @@ func (bs *bsess) onPacket(p refmqtt.Pkt) {
 				}
 			}
 		}
+		retained := func(early bool) {
+			for _, rm := range b.plan.Retained {
+				if rm.Early != early {
+					continue
+				}
+				best := -1
+				for i, f := range p.Filters {
+					if codes[i] <= 2 && refmqtt.Match(f, rm.Topic) && int(codes[i]) > best {
+						best = int(codes[i])
+					}
+				}
+				if best < 0 {
+					continue
+				}
+				q := rm.QoS
+				if uint8(best) < q {
+					q = uint8(best)
+				}
+				b.s.fault("retained-publish")
+				if early {
+					b.s.fault("publish-before-suback")
+				}
+				// one retained message is sent once per matching SUBSCRIBE: keep payloads unique
+				bs.nRet++
+				bs.publishTo(rm.Topic, append(append([]byte(nil), rm.Payload...), []byte(fmt.Sprintf("~r%d", bs.nRet))...), q, true, false, 0)
+			}
+		}
 		if !silent {
+			retained(true)
 			bs.send(refmqtt.Pkt{Type: refmqtt.SUBACK, ID: p.ID, Codes: codes})
+			retained(false)
 		}
 	case refmqtt.UNSUBSCRIBE:
 		for _, f := range p.Filters {
